@@ -109,6 +109,7 @@ def prepare(case):
     ng0 = fm.gen_to_nlgen(g)
     order, perm, _ = nlgen.order_vars(ng0)
     corder = [i for i, c in enumerate(g["cons"]) if c["has"]] + [i for i, c in enumerate(g["cons"]) if not c["has"]]
+    g = dict(g, compl=g.get("compl") or [], sos=g.get("sos") or [])
     pm = fm.permute_gen(g, perm, corder)
     case["pm"] = pm
     case["D"] = fm.choose_D(pm)
@@ -132,7 +133,10 @@ def run_and_record(exe, pid, cases, extra_opts=(), answer=None, keep=False):
             raise Broken("variable order not canonical for case %s" % c["id"])
         D = c["D"]
         n0 = len(c["model"]["vars"])
-        rec = {"e": "Case", "id": c["id"], "D": D, "nl": fm.nl_record(c["pm"], D), "ng": False,
+        nlrec = fm.nl_record(c["pm"], D)
+        if any(o.replace(" ", "") in ("cvt:sos=0", "sos=0") for o in c["opts_full"]):
+            nlrec["sos"] = []      # the user told the driver to ignore the .sosno/.ref suffixes
+        rec = {"e": "Case", "id": c["id"], "D": D, "nl": nlrec, "ng": False,
                "code": -1, "msgNonEmpty": False, "toobig": False}
         converted = any(ev["e"] == "FinishProblemModificationPhase" for ev in r["rec"])
         s = r["sol"]
